@@ -137,9 +137,31 @@ static void h_conc_dict(const vcase *c) {
     size_t w = varintDictEncodeWithDict(buf, d, v, nv);
     out_u64("w", w);
     out_u64("h", fnv(buf, w));
+    /* lookups in an order that depends on the calling thread (rotation by a
+     * thread-dependent offset), folded with a commutative sum: the printed
+     * value is the same for every order iff every lookup answers as it does
+     * alone */
+    size_t rot = nv ? ((size_t)vdrv_tid * 7919u) % nv : 0;
     uint64_t acc = 0;
-    for (size_t i = 0; i < nv; i++) acc = acc * 31 + (uint64_t)(int64_t)varintDictFind(d, v[i]);
+    for (size_t k = 0; k < nv; k++) {
+        size_t i = (k + rot) % nv;
+        acc += ((uint64_t)i + 1) * 0x9E3779B97F4A7C15ULL * ((uint64_t)(int64_t)varintDictFind(d, v[i]) + 2);
+    }
     out_u64("find", acc);
+    /* the rotated array encoded with the shared dictionary decodes to itself */
+    if (nv) {
+        uint64_t *rv = malloc(nv * sizeof(uint64_t));
+        for (size_t k = 0; k < nv; k++) rv[k] = v[(k + rot) % nv];
+        size_t w2 = varintDictEncodeWithDict(buf, d, rv, nv);
+        uint64_t *back = malloc((nv + 1) * sizeof(uint64_t));
+        size_t dn = w2 ? varintDictDecodeInto(buf, w2, back, nv) : 0;
+        int ok = (w2 == w) && dn == nv && !memcmp(back, rv, nv * sizeof(uint64_t));
+        /* values absent from the dictionary make the encoder refuse: then w == w2 == 0 */
+        if (!w && !w2) ok = 1;
+        out_u64("rot_rt", (uint64_t)ok);
+        free(back);
+        free(rv);
+    }
     out_u64("size", varintDictEncodedSizeWithDict(d, nv));
     free(buf);
 }
@@ -160,6 +182,11 @@ static void h_conc_enc(const vcase *c) {
         w = varintFOREncode(buf, v, n, &fm);
         out_u64("for", fnv(buf, w));
         if (w && varintFORDecode(buf, out, n) == n) out_u64("ford", fnv(out, n * 8));
+        /* the forms that analyse for themselves (meta == NULL) */
+        w = varintFOREncode(buf, v, n, NULL);
+        out_u64("for0", fnv(buf, w));
+        w = varintFORBatchEncode(buf, v, n, NULL);
+        out_u64("forb0", fnv(buf, w));
         varintPFORMeta pm;
         memset(&pm, 0, sizeof pm);
         w = varintPFOREncode(buf, v, (uint32_t)n, VARINT_PFOR_THRESHOLD_95, &pm);
@@ -184,6 +211,44 @@ static void h_conc_enc(const vcase *c) {
         w = varintAdaptiveEncode(ab, v, n, &am);
         out_u64("adp", fnv(ab, w));
         free(ab);
+    }
+    /* a PRIVATE variant of the input that differs between threads (every value
+     * shifted by a thread-dependent amount, modulo 2^64): in the lockstep phase
+     * all threads are then inside the same encoder at the same moment with
+     * different data, so state kept between or across calls shows as a failed
+     * round trip.  The printed flags do not depend on the shift. */
+    if (n) {
+        uint64_t sh = (uint64_t)vdrv_tid * 0x9E3779B97F4A7C15ULL;
+        uint64_t *pv = malloc(n * sizeof(uint64_t));
+        for (size_t i = 0; i < n; i++) pv[i] = v[i] + sh;
+        size_t bytes = n * sizeof(uint64_t);
+        w = varintFOREncode(buf, pv, n, NULL);
+        out_u64("p_for", w && varintFORDecode(buf, out, n) == n && !memcmp(out, pv, bytes));
+        w = varintFORBatchEncode(buf, pv, n, NULL);
+        out_u64("p_forb", w && varintFORDecode(buf, out, n) == n && !memcmp(out, pv, bytes));
+        w = varintDeltaEncodeUnsigned(buf, pv, n);
+        out_u64("p_delta", w && varintDeltaDecodeUnsigned(buf, n, out) && !memcmp(out, pv, bytes));
+        w = varintRLEEncodeWithHeader(buf, pv, n, NULL);
+        out_u64("p_rle", w && varintRLEDecodeWithHeader(buf, out, n) == n && !memcmp(out, pv, bytes));
+        w = varintDictEncode(buf, pv, n);
+        out_u64("p_dict", w && varintDictDecodeInto(buf, w, out, n) == n && !memcmp(out, pv, bytes));
+        varintBP128Meta bm2;
+        memset(&bm2, 0, sizeof bm2);
+        w = varintBP128Encode64(buf, pv, n, &bm2);
+        out_u64("p_bp", w && varintBP128Decode64(buf, out, n) == n && !memcmp(out, pv, bytes));
+        varintPFORMeta pm2, pm3;
+        memset(&pm2, 0, sizeof pm2);
+        memset(&pm3, 0, sizeof pm3);
+        w = varintPFOREncode(buf, pv, (uint32_t)n, VARINT_PFOR_THRESHOLD_95, &pm2);
+        out_u64("p_pfor", w && varintPFORDecode(buf, out, &pm3) == n && !memcmp(out, pv, bytes));
+        uint8_t *ab = malloc(varintAdaptiveMaxSize(n) + n * 8 + 4096);
+        varintAdaptiveMeta am2, am3;
+        memset(&am2, 0, sizeof am2);
+        memset(&am3, 0, sizeof am3);
+        w = varintAdaptiveEncode(ab, pv, n, &am2);
+        out_u64("p_adp", w && varintAdaptiveDecode(ab, out, n, &am3) == n && !memcmp(out, pv, bytes));
+        free(ab);
+        free(pv);
     }
     free(out);
     free(buf);
